@@ -1,5 +1,6 @@
 import EpyVerif.Lemmas.NetGF
 import EpyVerif.Lemmas.GFDen
+import EpyVerif.Lemmas.GFNet
 /-!
 # C17 — Degree-distribution generating functions match their distributions
 
@@ -52,6 +53,34 @@ theorem maxDeg_bounds (ds : List Nat) : ∀ d ∈ ds, d ≤ maxDeg ds := by
       · exact Nat.le_trans (Nat.le_max_right a d) h1
       · exact h2 d hd
   exact (this ds 0).2
+
+
+/-! ### the same two identities through the code's own evaluation loop
+
+`gf_from_network(g)` is `DiscreteGF(g)`: the list above wrapped as `GF.leaf`, i.e. with the list's own length as
+largest term, so `FunctionGF.evaluate` adds up every coefficient however large the largest degree is. -/
+
+/-- `gf_from_network(g)(1) = 1` for every non-empty degree sequence — a hub of any degree included -/
+theorem net_value_at_one (ds : List Nat) (hne : ds ≠ []) : GF.eval (GF.leaf (coeffs ds (maxDeg ds))) 1 = 1 := by
+  rw [GF.eval_leaf_one]; exact eval_one ds _ hne (maxDeg_bounds ds)
+
+/-- `gf_from_network(g).dx()(1)` is (Σ degrees)/N, which `degree_sum` makes 2M/N -/
+theorem net_slope_at_one (ds : List Nat) :
+    GF.eval (GF.dx 1 (GF.leaf (coeffs ds (maxDeg ds)))) 1 = ((ds.sum : Nat) : ℚ) / ((ds.length : Nat) : ℚ) := by
+  rw [GF.eval_dx_leaf_one, coeff_length, ← dx_one ds (maxDeg ds) (maxDeg_bounds ds)]
+  congr 1
+  apply List.map_congr_left
+  intro i hi
+  rw [List.mem_range] at hi
+  rw [coeff_is_fraction ds (maxDeg ds) i (by omega)]
+
+/-- coefficients through the wrapper: the fraction of nodes of degree i, and 0 beyond the largest degree -/
+theorem net_coeff (ds : List Nat) (i : Nat) :
+    GF.coeff (GF.leaf (coeffs ds (maxDeg ds))) i = if i ≤ maxDeg ds then (ds.count i : ℚ) / ds.length else 0 := by
+  simp only [GF.coeff, GF.leaf, GF.listCoeff]
+  split
+  · rename_i h; exact coeff_is_fraction ds _ i h
+  · rename_i h; rw [List.getD_eq_default]; rw [coeff_length]; omega
 
 /-! ### order bookkeeping of `ContinuousGF` -/
 
